@@ -1191,3 +1191,9 @@ mod tests {
         });
     }
 }
+
+/// Verification harness (child module: reaches `Batcher` and validator internals). `--cfg ipa_verif` only.
+#[cfg(all(test, ipa_verif))]
+pub(crate) mod verif_h3 {
+    include!(concat!(env!("IPA_VERIF_DIR"), "/harness/h3_context.rs"));
+}
